@@ -1,3 +1,5 @@
 import KitProofs.Props.C18
+import KitProofs.Props.C18Frame
 import KitProofs.Census
 #census KitProofs.Props.C18
+#census KitProofs.Props.C18Frame
